@@ -32,10 +32,10 @@ def build(sc: dict):
         cfg["objectives"] = {"weights": [1.0, 5.0, 2.0], "realization_filters": [0, -1, 0]}
         cfg["realization_filters"] = [{"method": "cvar-objective", "options": {"sort": [0, 2], "percentile": p}}]
         col = ("obj", 0)
-    elif fl == "obj":
+    elif fl in ("obj", "objneg"):
         objs = np.stack([decoy, val], axis=1)
         cons = None
-        cfg["objectives"] = {"weights": [1.0, 3.0], "realization_filters": [-1, 0]}
+        cfg["objectives"] = {"weights": [1.0, 3.0] if fl == "obj" else [4.0, -1.0], "realization_filters": [-1, 0]}
         cfg["realization_filters"] = [{"method": "cvar-objective", "options": {"sort": [1], "percentile": p}}]
         col = ("obj", 1)
     else:
@@ -43,7 +43,8 @@ def build(sc: dict):
         lb, ub = {"le": (-INF, t), "ge": (t, INF), "eq": (t, t)}[fl]
         objs = decoy[:, None].copy()
         cons = np.stack([decoy, val], axis=1)
-        cfg["nonlinear_constraints"] = {"lower_bounds": [-INF, lb], "upper_bounds": [0.0, ub],
+        # the constraint in front of the ranked one is two-sided (two normalised rows for one configured constraint)
+        cfg["nonlinear_constraints"] = {"lower_bounds": [-5.0, lb], "upper_bounds": [0.0, ub],
                                         "realization_filters": [-1, 0]}
         cfg["realization_filters"] = [{"method": "cvar-constraint", "options": {"sort": 1, "percentile": p}}]
         col = ("con", 1)
@@ -115,14 +116,14 @@ def extra_scenarios(tier: str, seed: int):
                 perm = rng.permutation(n) + 1
                 failed = [False] * n
                 out.append({"n": n, "val": [int(v) - 2 for v in perm], "o2": [0] * n, "failed": failed,
-                            "k": k, "D": D, "fl": ["obj", "le", "ge", "eq"][(k + n) % 4], "multi": False, "target": 1})
+                            "k": k, "D": D, "fl": ["obj", "le", "ge", "eq", "objneg"][(k + n) % 5], "multi": False, "target": 1})
     reps = 300 if tier == "quick" else 3000
     for _ in range(reps):
         n = int(rng.integers(5, 13))
         D = int(rng.integers(2, 25))
         out.append({"n": n, "val": [int(v) for v in rng.integers(-6, 7, n)], "o2": [0] * n,
                     "failed": [bool(b) for b in rng.random(n) < 0.25], "k": int(rng.integers(1, D + 1)), "D": D,
-                    "fl": ["obj", "le", "ge", "eq"][int(rng.integers(4))], "multi": False, "target": 1})
+                    "fl": ["obj", "le", "ge", "eq", "objneg"][int(rng.integers(5))], "multi": False, "target": 1})
     return out
 
 
